@@ -138,6 +138,7 @@ def book? : List String → Option Bookkeeping
   | ["ls", cp, tag, fields] => do pure (.latestSeed (← Hex.decode cp) (← Hex.decode tag) (← hexList? fields))
   | ["ld", cp, tag] => do pure (.latestDel (← Hex.decode cp) (← Hex.decode tag))
   | ["rd", cp] => do pure (.rootDel (← Hex.decode cp))
+  | ["fd", cp] => do pure (.frontierDel (← Hex.decode cp))
   | _ => none
 
 def ev? (tok : String) : Option Ev :=
@@ -180,7 +181,7 @@ def ev? (tok : String) : Option Ev :=
         | _ => none
       else if k == 'R' then
         match rest with
-        | [p] => p.toNat?.map (fun n => .restart sid n)
+        | [p, q] => do pure (.restart sid (← p.toNat?) (← q.toNat?))
         | _ => none
       else none
   | _ => none
